@@ -36,7 +36,10 @@ def _fault_summary(stderr, rc):
     return "exit:%d" % rc
 
 
-def run_batch(cmd, scripts, timeout=600, per_process=None, env_extra=None):
+MAX_FAULTS = 400
+
+
+def run_batch(cmd, scripts, timeout=120, per_process=None, env_extra=None, max_faults=MAX_FAULTS):
     """scripts: list of list-of-lines.  Returns list of (lines, fault) per script where fault is
     None or a summary string (the process died inside that script; lines are what was printed)."""
     results = [None] * len(scripts)
@@ -44,7 +47,13 @@ def run_batch(cmd, scripts, timeout=600, per_process=None, env_extra=None):
     env = dict(ENV)
     if env_extra:
         env.update(env_extra)
+    nfaults = 0
     while start < len(scripts):
+        if nfaults >= max_faults:
+            # the code under test dies on (almost) every script: enough evidence, do not restart forever
+            for i in range(start, len(scripts)):
+                results[i] = ([], "skipped")
+            break
         end = len(scripts) if per_process is None else min(len(scripts), start + per_process)
         inp = []
         for i in range(start, end):
@@ -74,6 +83,8 @@ def run_batch(cmd, scripts, timeout=600, per_process=None, env_extra=None):
             start = end
             continue
         if died:
+            # a hang costs the whole timeout: a handful of them is enough evidence
+            nfaults += 100 if rc == -9 else 1
             if results[last] is None:
                 results[last] = ([], None)
             summary = "timeout" if rc == -9 else _fault_summary(err, rc)
@@ -113,6 +124,8 @@ def compare_script(script, c_res, m_res, observable=("R", "C"), internal=("I",))
     ok | fault | c_ne_s | c_ne_m | m_ne_s | drift"""
     c_lines, c_fault = c_res
     m_lines, _ = m_res
+    if c_fault == "skipped":
+        return {"kind": "skipped"}
     drift = None
     for i in range(len(script)):
         if i >= len(c_lines):
